@@ -926,6 +926,9 @@ func main() {
 		bfsBudget, termBudget = 30*time.Minute, 15*time.Minute
 	}
 	core.Opt.Budget = bfsBudget
+	// two written-out histories of the new phases among the samples
+	r.Sample(map[string]interface{}{"history": []string{"R1", "tXV150,B:uC1+100;vXnc@g2"}, "reads": "phase R, scenario R1 (V and W vote C1); one block: X pays V 150 LEMO (V 5 -> 6 votes), then a box by X whose first sub-transaction tops C1's deposit up over a 100-LEMO step and whose second asks for more gas than the block has left: the miner undoes the box (block is full), packages the transfer; the tally is checked on the miner's saved state and on the validator's"})
+	r.Sample(map[string]interface{}{"term_history": []string{"TA", "-", "xC2", "-", "fee150", "vVC3", "-"}, "reads": "phase T, scenario TA (heights 7..12): 8 (snapshot, interim) = C2, which votes C1, unregisters: refund deferred; 10 = a transfer whose 150-LEMO fee goes to the miner D1, its own income address, which votes for itself; 11 (reward block) = V re-votes C1 -> C3, then Finalize pays 200 LEMO to inc0 (votes C1) and D1 (votes itself) and refunds 5M LEMO to C2 (votes C1), and the settlement has to carry all three into the tallies"})
 	core.BFS(r, core.BFSConfig{Prop: prop, Run: safe, MaxDepth: maxBlocks + 1, Subprocess: true, RecycleEvery: 1500, PerRunLimit: 120e9,
 		DiedFingerprint: func(hist []string, tail string) *core.Violation {
 			names := strings.Split(hist[len(hist)-1], ",")
